@@ -29,12 +29,31 @@ def reverse_dfs_recursive(state: int, reversed_transitions: dict, reaching_state
         Output:
             rec_reaching_states: the list of states that reach the input state (or a final state)
     """
+    # The search keeps its own stack instead of calling itself, so that long
+    # chains of states do not exceed the interpreter's recursion limit.
+    # Every stack entry remembers how many states had been collected when the
+    # state was entered: a predecessor is skipped only if it was collected
+    # before that point, which is the visiting order of the recursive version.
     rec_reaching_states = reaching_states.copy()
-    rec_reaching_states.append(state)
-    for next_state in reversed_transitions[state]:
-        if next_state not in reaching_states:
-            rec_reaching_states = reverse_dfs_recursive(
-                next_state, reversed_transitions, rec_reaching_states)
+    first_position = {}
+    for position, reached in enumerate(rec_reaching_states):
+        first_position.setdefault(reached, position)
+
+    def enter(entered_state):
+        n_collected = len(rec_reaching_states)
+        first_position.setdefault(entered_state, n_collected)
+        rec_reaching_states.append(entered_state)
+        return n_collected, iter(reversed_transitions[entered_state])
+
+    stack = [enter(state)]
+    while stack:
+        n_collected, next_states = stack[-1]
+        for next_state in next_states:
+            if first_position.get(next_state, n_collected) >= n_collected:
+                stack.append(enter(next_state))
+                break
+        else:
+            stack.pop()
     return rec_reaching_states
 
 
